@@ -10,7 +10,7 @@ WT=/tmp/sc-$NAME
 git -C /repo worktree remove --force $WT >/dev/null 2>&1
 git -C /repo worktree add -q $WT HEAD || exit 3
 cd $WT
-if ! git apply $SD/patch.diff; then echo "SEED $NAME: patch does not apply"; git -C /repo worktree remove --force $WT; exit 3; fi
+if ! git apply $SD/patch.diff 2>/dev/null && ! git apply -C1 $SD/patch.diff; then echo "SEED $NAME: patch does not apply"; git -C /repo worktree remove --force $WT; exit 3; fi
 PLACE=$(head -1 $SD/demo_test.go | sed -n 's#.*place in: *\([a-z/.]*\).*#\1#p'); PLACE=${PLACE:-.}
 cp $SD/demo_test.go $WT/$PLACE/zz_seed_demo_test.go
 BUILD=$(go build ./... 2>&1 | tail -3)
@@ -25,7 +25,7 @@ cd /
 git -C /repo worktree remove --force $WT
 echo "SEED $NAME: build=[$BUILD] suite-with-patch=[$SUITE2] demo-with=[$DEMO_WITH] demo-without=[$DEMO_WITHOUT]"
 # run the check against the seeded tree
-git -C /repo apply $SD/patch.diff || { echo "cannot apply to /repo"; exit 3; }
+(git -C /repo apply $SD/patch.diff 2>/dev/null || git -C /repo apply -C1 $SD/patch.diff) || { echo "cannot apply to /repo"; exit 3; }
 /verif/bin/vcheck -p $PROP -tier $TIER -verif /verif > /tmp/seedrun-$NAME.log 2>&1
 RC=$?
 git -C /repo checkout -- .
